@@ -755,6 +755,16 @@ impl<'a> Gen<'a> {
         if roll < self.p.p_random {
             let bound = if self.r.chance(1, 8) {
                 self.expr(depth - 1, allow_vars)
+            } else if self.r.chance(1, 12) {
+                // the ends of the range of bounds: empty ranges (an error item, never a panic) and the largest one
+                match self.r.below(6) {
+                    0 => GExpr::Num(0),
+                    1 => GExpr::Num(1),
+                    2 => GExpr::Un("neg", Box::new(GExpr::Num(1))),
+                    3 => GExpr::Bin("shl", Box::new(GExpr::Num(1)), Box::new(GExpr::Num(63))),
+                    4 => GExpr::Num(i64::MAX),
+                    _ => GExpr::Un("neg", Box::new(GExpr::Num(i64::MAX))),
+                }
             } else {
                 GExpr::Num(*self.r.pick(&[2, 3, 4, 5, 16, 1000, 1 << 40, 1 << 62]))
             };
